@@ -4,6 +4,7 @@ import (
 	"encoding/json"
 	"fmt"
 	"go/token"
+	"go/types"
 	"hash/fnv"
 	"os"
 	"path/filepath"
@@ -171,7 +172,10 @@ func runsOnEveryPath(fn *ssa.Function, members []ssa.Instruction) bool {
 			continue
 		}
 		seen[b] = true
-		if _, isRet := b.Instrs[len(b.Instrs)-1].(*ssa.Return); isRet {
+		if ret, isRet := b.Instrs[len(b.Instrs)-1].(*ssa.Return); isRet {
+			if isErrorReturn(ret) {
+				continue // giving up with an error is not a way of skipping the step
+			}
 			return false // a return reached without passing a member
 		}
 		work = append(work, b.Succs...)
@@ -179,10 +183,100 @@ func runsOnEveryPath(fn *ssa.Function, members []ssa.Instruction) bool {
 	return true
 }
 
+// errNonNilAt: block b lies on the "v != nil" edge of a test of this very error value.
+func errNonNilAt(v ssa.Value, b *ssa.BasicBlock) bool {
+	if v.Referrers() == nil {
+		return false
+	}
+	for _, ref := range *v.Referrers() {
+		bo, ok := ref.(*ssa.BinOp)
+		if !ok || (bo.Op != token.NEQ && bo.Op != token.EQL) || bo.Referrers() == nil {
+			continue
+		}
+		other := bo.Y
+		if other == v {
+			other = bo.X
+		}
+		if k, ok := other.(*ssa.Const); !ok || !k.IsNil() {
+			continue
+		}
+		for _, r2 := range *bo.Referrers() {
+			iff, ok := r2.(*ssa.If)
+			if !ok {
+				continue
+			}
+			edge := 0
+			if bo.Op == token.EQL {
+				edge = 1
+			}
+			s := iff.Block().Succs[edge]
+			if len(s.Preds) == 1 && (s == b || s.Dominates(b)) {
+				return true
+			}
+		}
+	}
+	return false
+}
+
+// isErrorReturn: the return statement hands back a non-nil error (last result of type error): a constant-nil or
+// unknown value counts as success.
+func isErrorReturn(ret *ssa.Return) bool {
+	if len(ret.Results) == 0 {
+		return false
+	}
+	v := ret.Results[len(ret.Results)-1]
+	if n, ok := v.Type().(*types.Named); !ok || n.Obj().Name() != "error" || n.Obj().Pkg() != nil {
+		return false
+	}
+	if errNonNilAt(v, ret.Block()) {
+		return true
+	}
+	switch x := v.(type) {
+	case *ssa.Const:
+		return false
+	case *ssa.MakeInterface:
+		return true
+	case *ssa.Call:
+		// return fmt.Errorf(...) / NewMessageError(...): a constructor of errors
+		if cal := x.Call.StaticCallee(); cal != nil && (strings.Contains(cal.Name(), "Error") || cal.Name() == "New") {
+			return true
+		}
+		return false
+	case *ssa.UnOp:
+		// named result spilled because of a defer: the last store in this block decides
+		al, ok := x.X.(*ssa.Alloc)
+		if !ok {
+			return false
+		}
+		var last ssa.Value
+		for _, in := range ret.Block().Instrs {
+			if st, ok := in.(*ssa.Store); ok && st.Addr == ssa.Value(al) {
+				last = st.Val
+			}
+		}
+		if last == nil {
+			return false
+		}
+		if k, ok := last.(*ssa.Const); ok && k.IsNil() {
+			return false
+		}
+		if _, ok := last.(*ssa.MakeInterface); ok {
+			return true
+		}
+		if call, ok := last.(*ssa.Call); ok {
+			if cal := call.Call.StaticCallee(); cal != nil && (strings.Contains(cal.Name(), "Error") || cal.Name() == "New") {
+				return true
+			}
+		}
+		return false
+	}
+	return false
+}
+
 // ruleAlwaysRatchet: a step that ran on every path still does.
 func (c *Ctx) ruleAlwaysRatchet(rule string, pkgs []string, fileFilter func(file string) bool, baselineFile string, min int) {
 	r := c.R
-	r.Rule(rule, "bypass ratchet: the committed baseline records, per function, the calls and field stores (classes as in the order ratchet) that run on every path from the entry to a return. If each of those steps is still in the function and one of them can now be bypassed — a new early return or branch around a cancel, a wait, a drain, a reset — the reviewed behaviour 'this always happens' is gone", min)
+	r.Rule(rule, "bypass ratchet: the committed baseline records, per function, the calls and field stores (classes as in the order ratchet) that run on every path from the entry to a return that does not hand back a freshly made error. If each of those steps is still in the function and one of them can now be bypassed — a new early return or branch around a cancel, a wait, a drain, a reset — the reviewed behaviour 'this always happens' is gone", min)
 	var base []callSig
 	b, err := os.ReadFile(filepath.Join(homeDir(), baselineFile))
 	if err != nil || json.Unmarshal(b, &base) != nil {
